@@ -269,3 +269,9 @@ def build(sess):
     sess.explanation = ('parseLengthWithUnits is executed on structured texts ws.N.U.ws for every unit (and unsupported / numberless '
                         'texts); the four converters are each executed against the parse contract for every unit it can return and '
                         'compared with the single SVG factor table; round trip and pixels = inches x 96 follow from the contracts.')
+
+
+def fallback(sess):
+    r = native('n_c12', 'search', {})
+    r['what'] = 'n_c12.search'
+    return [r]
